@@ -622,3 +622,29 @@ def load_types(repo: str) -> dict:
             src = pyast.unparse(st)
             to_cy_ok = "order='c'" in src.replace('"', "'") and "copy=True" in src
     return {"c": ctypes, "py": pt, "mismatch": mism, "to_cy_c_copy": to_cy_ok}
+
+
+def rename_x(x, mapping: dict):
+    """Copy of an IR tree with `name` nodes renamed (simultaneously)."""
+    if isinstance(x, X):
+        if x.k == "name":
+            return X("name", mapping.get(x.a[0], x.a[0]), line=x.line)
+        return X(x.k, *[rename_x(v, mapping) for v in x.a], line=x.line)
+    if isinstance(x, list):
+        return [rename_x(v, mapping) for v in x]
+    if isinstance(x, tuple):
+        return tuple(rename_x(v, mapping) for v in x)
+    if isinstance(x, dict):
+        return {k: rename_x(v, mapping) for k, v in x.items()}
+    return x
+
+
+def canonical_mapping(roles: dict, all_names) -> dict:
+    """roles: actual name -> canonical name.  Names that are not roles but
+    collide with a canonical name are moved out of the way."""
+    m = dict(roles)
+    taken = set(roles.values())
+    for n in all_names:
+        if n not in m and n in taken:
+            m[n] = "_u_" + n
+    return m
